@@ -29,7 +29,7 @@ ECT = {k: v for k, v in CT.items() if k not in ('i128', 'u128')}
 
 
 def grid(tier, seed, section):
-    rnd = random.Random(seed * 7907 + hash(section) % 1000)
+    rnd = random.Random(seed * 7907 + sum(map(ord, section)) % 1000)  # stable across processes (str hash is randomised)
     types = [t for t in CT if section != 'C02' or t not in ('i128', 'u128')] if False else list(CT)
     fixed = [('i32', -16, 'i32', -16, 2), ('i32', -4, 'u16', 3, 2), ('i8', 0, 'u32', 0, 2), ('i16', -8, 'i64', -20, 2),
              ('u8', -7, 'u8', -1, 2), ('i64', -40, 'i32', -31, 2), ('i32', -2, 'i32', 1, 10), ('i64', -6, 'i16', -3, 10),
